@@ -2,7 +2,7 @@
 from collections import Counter, defaultdict
 
 from ..model import (Ev, must_pass, must_precede, trace_through, trace_back, op_local, op_place, place_local,
-                     is_bare, provenance, reach_positions)
+                     is_bare, provenance, reach_positions, place_proj)
 from ..rules import (rule_precede, rule_must_pass, rule_result_checked, rule_who_may_call, get_body, family,
                      calls_to, site, short, rule_between, return_defs, locals_of_type)
 from .. import errfate
@@ -20,7 +20,7 @@ ENTRY_PREFIXES = (
 
 IMD = "in-memory decode of bytes already read (io::Error is only the BinarySerializable signature), search side — no storage operation"
 # (function, callee, fate) -> (count, reason); every entry was read.
-FATE_TABLE = {
+FATE_TABLE_ = {
     ("<tantivy::indexer::index_writer::IndexWriter<D> as core::ops::drop::Drop>::drop", "JoinHandle::join (the joined thread's own Result)", "discarded"):
         (1, "Drop cannot report: the workers are joined to let them finish; a writer dropped without commit discards its uncommitted work anyway"),
     # --- fate 'err-arm-continues': the Result is matched, but the Err arm reaches a non-error exit
@@ -83,14 +83,14 @@ FATE_TABLE = {
 
 
 # entries that exist only in some build configurations: key -> set of configs
-ONLY_IN = {
+ONLY_IN_ = {
     ("tantivy::termdict::fst_termdict::term_info_store::TermInfoStore::get", "<tantivy::termdict::fst_termdict::term_info_store::TermInfoBlockMeta as tantivy_common::serialize::BinarySerializable>::deserialize", "panic:expect"): {"default", "nodebug", "zstd", "failpoints"},
     ("tantivy::termdict::fst_termdict::termdict::TermDictionary::empty", "tantivy::termdict::fst_termdict::termdict::TermDictionary::open", "panic:unwrap"): {"default", "nodebug", "zstd", "failpoints"},
     ("tantivy_sstable::dictionary::Dictionary::<TSSTable>::empty", "tantivy_sstable::Writer::<W, TValueWriter>::finish", "panic:expect"): {"quickwit"},
     ("tantivy_sstable::dictionary::Dictionary::<TSSTable>::empty", "tantivy_sstable::dictionary::Dictionary::<TSSTable>::builder", "panic:expect"): {"quickwit"},
     ("tantivy_sstable::dictionary::Dictionary::<TSSTable>::empty", "tantivy_sstable::dictionary::Dictionary::<TSSTable>::open", "panic:unwrap"): {"quickwit"},
 }
-FATE_TABLE.update({
+FATE_TABLE_.update({
     ("tantivy_sstable::dictionary::Dictionary::<TSSTable>::empty", "tantivy_sstable::Writer::<W, TValueWriter>::finish", "panic:expect"): (1, "quickwit build: empty dictionary written into a Vec<u8>, cannot fail"),
     ("tantivy_sstable::dictionary::Dictionary::<TSSTable>::empty", "tantivy_sstable::dictionary::Dictionary::<TSSTable>::builder", "panic:expect"): (1, "quickwit build: builder over a Vec<u8>"),
     ("tantivy_sstable::dictionary::Dictionary::<TSSTable>::empty", "tantivy_sstable::dictionary::Dictionary::<TSSTable>::open", "panic:unwrap"): (1, "quickwit build: opens the in-memory empty dictionary it just wrote"),
@@ -169,6 +169,21 @@ def r1(rep, prog):
                 k = (jb_.id, "JoinHandle::join (the joined thread's own Result)", f)
                 seen[k] += 1
                 sites[k].append(site(jb_, b))
+    # sites are keyed by the function they are written in (closures folded into it: a site that moves between a loop
+    # body and the closure of an iterator adaptor is the same site)
+    from ..panics import root_fn
+    seen_f, sites_f = Counter(), defaultdict(list)
+    for (fid, callee, fate), n in seen.items():
+        k2 = (root_fn(fid), callee, fate)
+        seen_f[k2] += n
+        sites_f[k2].extend(sites[(fid, callee, fate)])
+    seen, sites = seen_f, sites_f
+    FATE_TABLE, ONLY_IN = {}, {}
+    for (fid, callee, fate), (cnt, why) in FATE_TABLE_.items():
+        k2 = (root_fn(fid), callee, fate)
+        FATE_TABLE[k2] = (FATE_TABLE[k2][0] + cnt, FATE_TABLE[k2][1] + "; " + why) if k2 in FATE_TABLE else (cnt, why)
+        if (fid, callee, fate) in ONLY_IN_:
+            ONLY_IN[k2] = ONLY_IN_[(fid, callee, fate)]
     for k, n in sorted(seen.items()):
         fid, callee, fate = k
         key = "%s: %s of %s" % (short(fid), fate, short(callee))
@@ -251,12 +266,36 @@ def r3(rep, prog):
         if not rep.check(len(js) == 1, R, "%s joins its workers" % short(fid), "1 join site", "expected one JoinHandle::join in %s, found %d" % (fid, len(js)), site=body.span):
             continue
         jb = js[0][0]
-        n = 0
+        # a layer is checked by a `?` on a value derived from join(), or by a match on it whose Err arm only
+        # leads to error exits (the two spellings of the same thing)
+        layers = set()
         for b, t in body.calls():
             if t.get("f", "").endswith("Try::branch"):
                 tr = trace_through(body, op_local(t["args"][0]))
                 if any(s[0] == "call" and len(s) > 2 and s[2] == jb for s in tr):
-                    n += 1
+                    layers.add(("?", b))
+        eb = body.error_blocks()
+        for b in body.normal_blocks():
+            sw = body.term(b)
+            if sw["k"] != "switch":
+                continue
+            for st in body.stmts(b):
+                if st.get("r") != "discr" or op_local(sw["on"]) != place_local(st["d"]):
+                    continue
+                pl = st["p"]
+                tr = trace_through(body, place_local(pl))
+                if not any(s[0] == "call" and len(s) > 2 and s[2] == jb for s in tr):
+                    continue
+                if "Result" not in body.local_ty_str(place_local(pl)):
+                    continue
+                err_arm = next((tb for v, tb in sw["vals"] if v == "1"), sw.get("else"))
+                if err_arm is None:
+                    continue
+                r_ = body.reachable((err_arm,), blocked=eb)
+                if not (set(body.return_blocks()) & r_) and jb not in r_:
+                    depth = sum(1 for e in place_proj(pl) if e.startswith("d:")) + sum(1 for s in tr if s[0] == "downcast")
+                    layers.add(("match", depth))
+        n = len(layers)
         rep.check(n >= 2, R, "%s propagates the panic layer and the error layer of join()" % short(fid), "%d `?` applied to values derived from join()" % n,
                   "%s checks only %d layer(s) of JoinHandle::join(): a failed indexing worker (Err inside Ok) is not reported to the caller of commit" % (fid, n), site=site(body, jb))
         # the join is inside the loop over all former handles: its block is on a cycle
